@@ -55,9 +55,9 @@ def stretched_gates(gates, *, suffix=None, update=False):
             name=new_name, parameters=parameters, ideal_unitary=ideal_unitary
         )
 
-        new_gates[new_name] = new_gate
+        new_gates[new_gate.name] = new_gate
         if add_idle:
-            new_name = name + suffix
+            new_name = name + (suffix or "")
             new_gate = IdleGateDefinition(new_gate, name=new_name)
             new_gates[new_name] = new_gate
 
